@@ -427,6 +427,7 @@ def stepFe (st : St) (ws : List String) : St × String :=
           | none => bad st
         | "msize", [] => (st, s!"{e.marshalSize}")
         | "size", [] => (st, s!"{e.values.length}")
+        | "empty", [] => (st, showB e.isEmpty)
         | _, _ => bad st
   | _ => bad st
 
